@@ -156,29 +156,39 @@ class _NoTTY(io.StringIO):
         return True
 
 
-def run_main(case):
-    """yaml-merge in-process.  -> ("ok", [docs]) | ("error", "exit N", stderr) | ("crash", info)"""
+class _Piped(io.StringIO):
+    def isatty(self):
+        return False
+
+
+def run_main(case, stdin_rhs=False):
+    """yaml-merge in-process; with stdin_rhs the right-hand stream arrives on STDIN (`-`) instead of in a file.
+    -> ("ok", [docs]) | ("error", "exit N", stderr) | ("crash", info)"""
     from yamlpath.commands import yaml_merge
+    from yamlpath.common import parsers as parsers_mod
     ld, rd = case_docs(case)
     d = _tmpdir()
     files = []
     for name, docs in (("l.yaml", ld), ("r.yaml", rd)):
-        if name == "r.yaml" and not docs:
+        if name == "r.yaml" and (not docs or stdin_rhs):
             continue
         p = os.path.join(d, name)
         with open(p, "w") as fh:
             fh.write(stream_text(docs))
         files.append(p)
-    argv = ["yaml-merge", "-S", "-D", "yaml", "-M", case["mode"]]
+    if stdin_rhs:
+        files.append("-")
+    argv = ["yaml-merge", "-D", "yaml", "-M", case["mode"]] + ([] if stdin_rhs else ["-S"])
     for o, flag in zip(OPTS, ("-H", "-A", "-O", "-E")):
         if case["args"].get(o):
             argv += [flag, case["args"][o]]
     argv += files
     out, err = io.StringIO(), io.StringIO()
-    old = sys.argv, sys.stdin
+    old = sys.argv, sys.stdin, parsers_mod.stdin
     code = None
     try:
-        sys.argv, sys.stdin = argv, _NoTTY("")
+        sys.argv, sys.stdin = argv, (_Piped(stream_text(rd)) if stdin_rhs else _NoTTY(""))
+        parsers_mod.stdin = sys.stdin              # (parsers.py binds `from sys import stdin` at import time)
         with contextlib.redirect_stdout(out), contextlib.redirect_stderr(err):
             try:
                 yaml_merge.main()
@@ -189,7 +199,7 @@ def run_main(case):
     except BaseException as ex:
         return _crash(ex)
     finally:
-        sys.argv, sys.stdin = old
+        sys.argv, sys.stdin, parsers_mod.stdin = old
     if code not in (0, None):
         return ("error", "exit %s" % code, err.getvalue()[:300])
     try:
@@ -253,7 +263,7 @@ def judge(case, channel="driver", real=None):
     ld, rd = case_docs(case)
     mode = case["mode"]
     if real is None:
-        real = {"driver": run_driver, "docs": run_merge_docs, "main": run_main}[channel](case)
+        real = {"driver": run_driver, "docs": run_merge_docs, "main": run_main, "main-stdin": lambda c: run_main(c, stdin_rhs=True)}[channel](case)
     cfg = S.SpecConfig.from_sources(cli=case["args"])
 
     def merge(l, r, c, trace=None):
@@ -394,7 +404,7 @@ def work(chunk, seed, policies, channels_every):
                 if rv:
                     r = eval_case(col, case, "driver")
                 if channels_every and (n % channels_every == 0 or not rv):
-                    for ch in ("docs", "main") if rv else ("main",):
+                    for ch in ("docs", "main", "main-stdin") if rv else ("main",):
                         r2 = eval_case(col, case, ch, suppress=r is not None and r["status"] not in ("pass", "error-path"))
                         # the channels must agree with each other on success paths
                         if r is not None and r["real"][0] == "ok" and r2["real"][0] == "ok" and not S.veq(r["real"][1], r2["real"][1]) \
@@ -454,7 +464,7 @@ def run(tier="quick", seed=0, jobs=None):
                    "rich = {a: [TAG, dup], h: {TAG: 1, k: TAG}, s: !!set {TAG, m}, r: [{a: TAG}], last: TAG} (lengths 1..3)",
         "modes": list(MODES), "policies": POLICIES,
         "channels": "driver functions on Merger lists (all cases with a right stream); merge_docs with the right stream in a file and "
-                    "yaml_merge.main() in-process on a deterministic subset (and all single-file cases)",
+                    "yaml_merge.main() in-process -- right stream in a file, and piped through STDIN (`-`) -- on a deterministic subset (and all single-file cases)",
         "stages": info, "tier": tier, "seed": seed,
     }
     rule = ("on success paths the list [plain(m.data) for m in lhs_mergers] after the driver (and the stream yaml-merge prints) equals "
